@@ -9,6 +9,8 @@ package main
 
 import (
 	"bytes"
+	"crypto/sha256"
+	"encoding/hex"
 	"encoding/json"
 	"flag"
 	"fmt"
@@ -665,6 +667,7 @@ type typeOut struct {
 	Opaque  bool     `json:"opaque"`
 	Written []string `json:"written"`
 	Nilled  []string `json:"nilled"`
+	SrcHash string   `json:"src_hash,omitempty"` // opaque codecs: hash of the normalised source of every codec method of the type
 }
 
 func main() {
@@ -783,6 +786,28 @@ func main() {
 				to.Enc = to.Dec
 			}
 			to.Opaque = to.Enc.isOpaque() || to.Dec.isOpaque()
+			if to.Opaque {
+				// the hand-written model of an opaque codec was written against this exact source text
+				var mnames []string
+				for mn, fd := range ms {
+					uses := false
+					for _, prm := range fd.Type.Params.List {
+						pt := src(prm.Type)
+						if strings.HasSuffix(pt, "Encoder") || strings.HasSuffix(pt, "Decoder") {
+							uses = true
+						}
+					}
+					if uses {
+						mnames = append(mnames, mn)
+					}
+				}
+				sort.Strings(mnames)
+				h := sha256.New()
+				for _, mn := range mnames {
+					fmt.Fprintf(h, "%s:%s\n", mn, src(ms[mn].Body))
+				}
+				to.SrcHash = hex.EncodeToString(h.Sum(nil)[:16])
+			}
 			to.Enc.paths("", &to.EncPaths)
 			to.Enc.written(nil, &to.Written, &to.Nilled)
 			if st, ok := underlying(rtype{dir, &ast.Ident{Name: n}}).e.(*ast.StructType); ok {
@@ -866,6 +891,18 @@ func main() {
 		}
 		first = false
 		fmt.Fprintf(&b, "  %s", coqStr(t.Q))
+	}
+	b.WriteString("].\n\n(* opaque codecs: hash of the normalised source text of the codec methods of the type *)\nDefinition gen_opaque_src : list (string * string) := [\n")
+	first = true
+	for _, t := range order {
+		if !t.Opaque {
+			continue
+		}
+		if !first {
+			b.WriteString(";\n")
+		}
+		first = false
+		fmt.Fprintf(&b, "  (%s, %s)", coqStr(t.Q), coqStr(t.SrcHash))
 	}
 	b.WriteString("].\n\n(* struct fields and the expressions each encoder writes *)\nDefinition gen_fields : list (string * list string * list string) := [\n")
 	first = true
